@@ -418,6 +418,9 @@ def check(ctx):
     from . import c01 as _c01
     _c01.async_assembly(ctx.borrowed("R6", "C01", only=("R1", "R2", "R3")), repo)
     _c01.sync_assembly(ctx.borrowed("R6", "C01", only=("R1", "R2", "R3")), repo)
+    ctx.rule("R8", "per received update: what reaches the structure for a partial-update message is that message's changes, each once (C05's message-sequence model on both stacks borrowed) - a handler that replays earlier messages flips unchanged items back and forth, notifying twice for an item that did not change")
+    from .c05 import message_sequence_model as _msm
+    _msm(ctx.borrowed("R8", "C05"), repo, "R9")
     ctx.rule("R7", "temperatures notify iff the stored reading differs: unit item and temperature item built by their constructors on a model structure, status_block_changed interpreted on block pairs where the unit flips with the word unchanged (silent), the word changes to one presenting the same number under the new unit (one notification), the word changes (one), nothing relevant changes (silent)")
     temperature_notifications(ctx, repo, "R7")
     for c in STRUCT_CLASSES:
